@@ -182,14 +182,14 @@ def selections():
 def gen_range_cases(c):
     rng = c.rng
     cases = []   # (delim byte, list, line)
-    maxlen = 7 if c.tier == "quick" else 9
+    maxlen = 7 if c.volume == "quick" else 9
     alpha = [ord("a"), ord("b"), 9]
     lines = [b""]
     for n in range(1, maxlen + 1):
         for t in itertools.product(alpha, repeat=n):
             lines.append(bytes(t))
     sels = selections()
-    if c.tier == "quick":
+    if c.volume == "quick":
         # every line with every selection up to length 6; length-7 lines with a rotating third of the selections
         for i, l in enumerate(lines):
             for j, s in enumerate(sels):
@@ -207,7 +207,7 @@ def gen_range_cases(c):
                 cases.append((9, s, l))
     # random: longer lines, other delimiters (incl. bytes >= 0x80), larger field numbers, multi-byte content
     delims = [9, 32, 44, 0x7C, 0xFF, 0x80, 1]
-    for _ in range(4000 if c.tier == "quick" else 40000):
+    for _ in range(4000 if c.volume == "quick" else 40000):
         d = rng.choice(delims)
         nf = rng.randrange(1, 14)
         fields = []
@@ -242,7 +242,7 @@ def gen_pairs(c):
         (b"1-2", 32, b"ab c d", b"a bc d", False), (b"1-2", 32, b"ab c d", b"ab c", True), (b"1-2", 32, b"ab c ", b"ab c", True),
     ]
     out += fixed
-    for _ in range(60 if c.tier == "quick" else 600):
+    for _ in range(60 if c.volume == "quick" else 600):
         spec = rng.choice(specs)
         rs = canonical(cut_parse(spec))
         d = rng.choice((9, 32, 44))
@@ -283,6 +283,7 @@ def load_replay(c):
 
 def main(argv):
     c = Check("C10", argv)
+    c.volume = c.tier     # generator volume; raised to thorough when the translator could only keep old constants
     ok, blog = build_repo(["hx_fields", "dedupe", "shard", "cache"])
     if not ok:
         c.broken.append("build of repo working tree failed: " + blog[-800:])
@@ -293,6 +294,7 @@ def main(argv):
     if note:
         c.assumptions.append("translator: the shape of the anchored code changed (" + note[:300] + "); the tie of the model to the code rests on the correspondence run below")
         log("  note: " + note[:300])
+        c.volume = "thorough"   # the shape of the code changed: the tie rests on the correspondence run, so make it the big one
     if c.tier == "thorough":
         coqchk(c)
     drv, dlog = build_driver("C10")
@@ -303,7 +305,7 @@ def main(argv):
     # ---------------- cases
     lists = all_small_lists() + MALFORMED
     alphabet = b"0123456789,,--  +a"
-    for _ in range(3000 if c.tier == "quick" else 30000):
+    for _ in range(3000 if c.volume == "quick" else 30000):
         lists.append(bytes(rng.choice(alphabet[:14] if rng.random() < 0.8 else alphabet) for _ in range(rng.randrange(1, 9))))
     lists = [l for l in lists if b"\0" not in l and b"\n" not in l or l == b"1\n"]
     rcases = gen_range_cases(c)
@@ -399,7 +401,7 @@ def main(argv):
                             {"op": "IndividualFields", "kind": "individual", "line_hex": hexs(l), "list": s.decode(), "delim": d, "impl": o, "expected": want})
 
     # ASan/UBSan build of the harness: the line is an exact-size heap copy, pieces outside it or reads past it are reported
-    asan_lines(c, "hx_fields", lines if c.tier == "thorough" else lines[::3], "(exact-size heap copy of the line)")
+    asan_lines(c, "hx_fields", lines if c.volume == "thorough" else lines[::3], "(exact-size heap copy of the line)")
 
     # ---------------- tool level: the key relation on line pairs
     pairs = gen_pairs(c)
@@ -419,7 +421,7 @@ def main(argv):
             c.violation("tool/dedupe-key: dedupe -f %s -d %r on lines %r and %r printed %r (status %s); their selected fields are %s so the second line must be %s" % (
                 spec.decode(), dl, l1, l2, so, st, "identical" if same else "different", "dropped" if same else "kept"),
                 {"op": "dedupe", "kind": "pair", "args": ["-f", spec.decode(), "-d", dl.decode("latin1")], "actual_args": dargs, "stdin_hex": hexs(data), "stdout_hex": hexs(so), "expected_hex": hexs(want)})
-    for spec, d, l1, l2, same in pairs[:40 if c.tier == "quick" else 300]:
+    for spec, d, l1, l2, same in pairs[:40 if c.volume == "quick" else 300]:
         dl = bytes([d])
         data = l1 + b"\n" + l2 + b"\n"
         cargs = ["-k", spec.decode()] + ([] if d == 9 and len(l1) % 2 == 1 else ["-t", dl.decode("latin1")])
@@ -446,7 +448,7 @@ def main(argv):
         dl = bytes([d])
         rs = canonical(cut_parse(spec))
         batch = []
-        for _ in range(30 if c.tier == "quick" else 300):
+        for _ in range(30 if c.volume == "quick" else 300):
             nf = rng.randrange(1, 7)
             batch.append(dl.join(bytes(rng.choice(b"abc") for _ in range(rng.choice((0, 0, 1, 2)))) for _ in range(nf)))
         batch = [l for l in dict.fromkeys(batch)]
